@@ -1,6 +1,6 @@
 @unit cw4group
-@shim core.rs cw_utils.rs cw2.rs std_adapters.rs snapshot.rs cw_controllers.rs
-@properties C09 C14
+@shim core.rs cw_utils.rs cw2.rs std_adapters.rs snapshot.rs cw_controllers.rs range.rs snapshot_range.rs
+@properties C09 C14 C20
 
 // ===================================================================== data and state
 @struct packages/cw4/src/query.rs Member
@@ -402,3 +402,33 @@ pub open spec fn step_msg(s: Raw, t: Raw, sender: Seq<char>, h: u64, msg: Execut
 @end
 
 @include inc/snapshot_lemmas.vsi
+
+// ===================================================================== C20: member listing
+@struct packages/cw4/src/query.rs MemberListResponse
+@const contracts/cw4-group/src/contract.rs MAX_LIMIT
+@const contracts/cw4-group/src/contract.rs DEFAULT_LIMIT
+@include inc/paging.vsi
+pub open spec fn str_cursor(c: Option<String>) -> Option<Seq<u8>> { match c { Some(s) => Some(utf8(s@)), None => None } }
+
+@fn contracts/cw4-group/src/contract.rs query_list_members [closures: 2]
+@ensures C20.list_members_page
+    r is Ok ==> ({
+        let pg = page(listing(deps.storage.view(), "members"@, Seq::<u8>::empty(), false), str_cursor(start_after), limit);
+        r->Ok_0.members@.len() == pg.len() && forall|i: int| 0 <= i < pg.len() ==> utf8((#[trigger] r->Ok_0.members@[i]).addr@) == pg[i].0
+            && u64::de(pg[i].1) == Some(r->Ok_0.members@[i].weight)
+    })
+@eta "addr.as_ref().map" 1
+    __c: &Addr -> Bound<&Addr>
+@closure_types 1
+    item: StdResult<(Addr, u64)>
+@closure 1 C20.list_members_map
+    (res: StdResult<Member>)
+    ensures match item { Ok((a, w)) => res is Ok && res->Ok_0.addr@ == a@ && res->Ok_0.weight == w, Err(_) => res is Err }
+@closure_types 2
+    __p2_0: (Addr, u64)
+@closure 2 C20.list_members_entry
+    (res: Member)
+    ensures res.addr@ == __p2_0.0@ && res.weight == __p2_0.1
+@prefix
+    broadcast use string_conv;
+@end
